@@ -103,19 +103,22 @@ Theorem C02_only_trash_renames_dropped : forall c m, dropped m ->
   (forall s, In (c, m) (fst (fst (open_prog s))) -> exists x, c = CRename (NSst x) (NTrashSst x)).
 Proof. exact only_trash_renames_ignored. Qed.
 
-(* ---- 6c. an error that ends an operation leaves a recoverable directory: when the failing call is
-   one whose error ends the operation (`?`, or a hard_link failing with anything but
-   AlreadyExists), the directory left behind is exactly the crash point before that call, hence
-   safe in the sense of theorem 1.
-   PARTIAL with respect to "every injected error": errors at the calls whose result is dropped
-   (6b) and at the manifest edit of compaction_finish (whose error is kept while the clean-up
-   still runs) lead through states that are not crash points of the fault-free run; for those the
-   recoverability after the error is exercised by the correspondence check only. *)
-Theorem C02_fault_leaves_recoverable_partial : forall s v o k, Run s v -> accepted v o ->
-  run (fst (op_prog v s o)) s = (fst (run (fst (op_prog v s o)) s), None) ->
-  (k < length (fst (op_prog v s o)))%nat -> stops (snd (nth k (fst (op_prog v s o)) (CSync NMani, Must))) ->
-  Safe (fst (run_prog (fst (op_prog v s o)) (Some k) O s None)) (all_entries v) (op_batch v o).
+(* ---- 6c. an error leaves a recoverable directory.  Whatever single call of an operation fails with
+   an injected I/O error (f = Some j; or none, f = None) — a call whose error ends the operation, a
+   rename whose error is dropped, or the manifest edit of compaction_finish whose error is kept
+   while the clean-up still runs — EVERY state the operation passes through (k calls of the
+   program considered, k arbitrary; k = its length is where it ends) is safe in the sense of
+   theorem 1: a crash there, under any cut, recovers to the acknowledged entries or those plus
+   the whole in-flight batch. *)
+Theorem C02_fault_leaves_recoverable : forall s v o f k, Run s v -> accepted v o ->
+  Safe (fst (run_prog (firstn k (fst (op_prog v s o))) f O s None)) (all_entries v) (op_batch v o).
 Proof. exact fault_leaves_recoverable. Qed.
+
+(* ---- 6d. the same for recovery itself, after any history with any number of crashes. *)
+Theorem C02_recovery_fault_leaves_recoverable : forall c f k, reach c -> c_v c = None ->
+  exists ch, sub ch (c_fly c) /\
+    Safe (fst (run_prog (firstn k (fst (fst (open_prog (c_fs c))))) f O (c_fs c) None)) (concat (c_ack c) ++ concat ch) None.
+Proof. exact recovery_fault_recoverable. Qed.
 
 (* ---- non-vacuity: a concrete history — open, two writes, a flush that dies by power loss after
    the SST was linked into sst/ but before the manifest edit — is reachable, and recovery returns
